@@ -43,6 +43,7 @@ func runC04(rt *rapid.T, st *stats.Collector) {
 	}
 	fault := rapid.SampledFrom(faultKinds).Draw(rt, "fault")
 	sc.producerWaits = rapid.Bool().Draw(rt, "producer-waits-on-its-context")
+	drawGatedRevs(rt, &sc)
 	if fault == "surplus-headers" && sc.name == "select" {
 		sc.name = "insert"
 	}
